@@ -71,6 +71,18 @@ CASES = [
                "ionic_strength({'Fe3+': b1, 'Cl-': b2}, substances='Fe3+ Cl-', substance_factory=_iupac, warn=False), "
                "ionic_strength({'Cl-': b2, 'Fe3+': b1}, substances='Fe3+ Cl-', substance_factory=_iupac, warn=False))",
          formula="((9*b1 + b2)/2, (9*b1 + b2)/2, (9*b1 + b2)/2)"),
+    # the default backend (backend omitted -> numpy): same constants, coefficients and products
+    dict(name="default_backend", targets=["chempy.electrolytes.A", "chempy.electrolytes.B", "chempy.electrolytes.extended_log_gamma",
+                                          "chempy.electrolytes.davies_activity_product"], setup=EL,
+         vars={"eps": POS, "T": POS, "rho": POS, "b0": POS, "I": POS, "a": POS, "Av": POS, "Bv": POS, "Cv": (None, None), "I0": POS},
+         plain="(A(eps, T, rho, b0), B(eps, T, rho, b0), limiting_log_gamma(I, 2, Av, I0), extended_log_gamma(I, -1, a, Av, Bv, Cv, I0), "
+               "davies_log_gamma(I, 3, Av, Cv, I0), limiting_activity_product(I, (1, 2), (2, -1), T, eps, rho), "
+               "extended_activity_product(I, (1, 2), (2, -1), (a, a), T, eps, rho, Cv), davies_activity_product(I, (1, 2), (2, -1), (a, a), T, eps, rho, Cv))",
+         formula="(A(eps, T, rho, b0, backend=be), B(eps, T, rho, b0, backend=be), limiting_log_gamma(I, 2, Av, I0, backend=be), "
+                 "extended_log_gamma(I, -1, a, Av, Bv, Cv, I0, backend=be), davies_log_gamma(I, 3, Av, Cv, I0, backend=be), "
+                 "limiting_activity_product(I, (1, 2), (2, -1), T, eps, rho, backend=be), "
+                 "extended_activity_product(I, (1, 2), (2, -1), (a, a), T, eps, rho, Cv, backend=be), "
+                 "davies_activity_product(I, (1, 2), (2, -1), (a, a), T, eps, rho, Cv, backend=be))"),
     dict(name="ionic_strength_arrays", targets=["chempy.electrolytes.ionic_strength"], setup=EL,
          vars={"b1": POS, "b2": POS, "n_z1": ZR, "n_z2": ZR},
          plain="ionic_strength([np.array([b1], dtype=object), np.array([b2], dtype=object)], [n_z1, n_z2])[0]",
